@@ -540,7 +540,7 @@ class Interp(object):
                     if la is None or lb is None:
                         la, lb = self.slin(st, a), self.slin(st, b)
                 if la is None or lb is None:
-                    return True
+                    la, lb = self.as_u(st, a), self.as_u(st, b)
                 # booleans compared with constants refine the underlying condition
                 for x, y in ((a, lb), (b, la)):
                     c = self.cond_of(st, x)
@@ -561,7 +561,13 @@ class Interp(object):
                 la, lb = self.slin(st, a), self.slin(st, b)
             if la is None or lb is None:
                 # sign split of a single free atom: x <s 0 on an unsigned-kind symbol
-                return self.assume_mixed(st, pred, a, b)
+                r = self.assume_mixed(st, pred, a, b)
+                if r is not None:
+                    return r
+                # keep the condition in the other representation (mod / smod atoms) rather than dropping it:
+                # witnesses are evaluated against it
+                la = self.as_u(st, a) if pred[0] == 'u' else self.as_s(st, a)
+                lb = self.as_u(st, b) if pred[0] == 'u' else self.as_s(st, b)
             return self.assume_rel(st, pred[1:], lb - la)
         return True
 
@@ -600,7 +606,7 @@ class Interp(object):
                 if pred == 'slt':
                     return st.assume_ge0(a.lin - H)
                 return st.assume_ge0(Lin.const(H - 1) - a.lin)
-        return True
+        return None
 
     def assume_rel(self, st, rel, d):
         if rel == 'lt':
@@ -964,6 +970,10 @@ class Interp(object):
                 slots, _c, _w, _s = self.carried_slots(st, fr, dst, phis, newvals)
                 for (key, v, t) in slots:
                     snap[self.slot_name(key)] = v
+        if widen_now and getattr(self.h, 'stop_at_widen', False):
+            # exact-prefix exploration: the path ends where the abstraction of the loop would begin
+            self.end_path(st, 'prefix', info=(fn.name, dst))
+            return 'end'
         if widen_now:
             self.widen(st, fr, dst, src, phis, newvals)
         else:
@@ -1309,6 +1319,7 @@ class Interp(object):
                 st.assume_eq0(rel)
                 used.append((a1, ('aff', a2, deltas[a1], deltas[a2], entry[a1], entry[a2]), None))
         st.flags['wbegin:' + fn.name] = begin
+        st.flags['hbegin:%s:%s' % (fn.name, header)] = begin
         extra = self.h.loop_candidates(self, st, fn, header, phis)
         for (name, lin) in extra:
             k2 = key0 + (name, 'x')
@@ -1359,6 +1370,9 @@ class Interp(object):
                 if b == src:
                     newvals[i.id] = self.val(st, v)
         st.flags['wend:' + fn.name] = dict((name, self.slot_value(st, fr, name, newvals)) for name in begin)
+        hb = st.flags.get('hbegin:%s:%s' % (fn.name, header))
+        if hb:
+            st.flags['hend:%s:%s' % (fn.name, header)] = dict((name, self.slot_value(st, fr, name, newvals)) for name in hb)
 
     def check_invariants(self, st, fr, header, src):
         rec = fr.loops[header]
